@@ -299,15 +299,18 @@ Loop:
 
 // UnaryExpr ::= UnionExpr | '-' UnaryExpr
 func (p *parser) parseUnaryExpr(n node) node {
-	minus := false
-	// ignore '-' sequence
+	minus, signed := false, false
 	for p.r.typ == itemMinus {
 		p.next()
 		minus = !minus
+		signed = true
 	}
 	opnd := p.parseUnionExpr(n)
 	if minus {
 		opnd = newOperatorNode("*", opnd, newOperandNode(float64(-1)))
+	} else if signed {
+		// an even number of '-' signs cancels numerically, but the operand is still converted to a number
+		opnd = newOperatorNode("*", newOperatorNode("*", opnd, newOperandNode(float64(-1))), newOperandNode(float64(-1)))
 	}
 	return opnd
 }
